@@ -67,15 +67,18 @@ theorem rebuild_is_node_on_normal (op : Op) (p : Payload) (args : List Term) (h 
 /-- **The one-shot memoised walk computes the recursive model** (re-export of
 `Walker.substitute_walk_eq_partial`): running the generic `DagWalker` model (work stack, memo, push
 override at quantifiers) with the `Substituter` callbacks for the map `σ` returns `substG ms h σ t`
-and leaves the walker idle. `_partial`: at a quantifier the nested fresh sub-substituter is taken to be
+and leaves the walker idle, within `dagBound t` = 2·(edges of the DAG of `t`)+2 loop iterations and pushes (linear in the
+DAG, not the tree). `_partial`: at a quantifier the nested fresh sub-substituter is taken to be
 its own recursive model (the induction over the quantifier depth is not carried out). -/
 theorem substitute_walk_eq_partial {M E : Type} [Walker.MemoLike M Term Term] [Walker.LawfulMemo M Term Term]
     (ms : Bool) (h : FnHandler) (σ : Subst.TMap) (inval shortcut : Bool) (fuel : Nat) (t : Term)
     (s : Walker.WState M Term)
-    (hi : Walker.FoldIdle (fun n => n.op.isQuantifier) (substG ms h σ) s) (hfuel : 2 * t.size ≤ fuel) :
+    (hi : Walker.FoldIdle (fun n => n.op.isQuantifier) (substG ms h σ) s) (hfuel : Walker.dagBound t ≤ fuel) :
     let r := Walker.walk Walker.termGraph (fun n => n.op.isQuantifier)
                (fun _ => Walker.cbOf (E := E) (Walker.substCb ms h σ)) inval shortcut fuel t s
-    r.1 = .ok (substG ms h σ t) ∧ Walker.FoldIdle (fun n => n.op.isQuantifier) (substG ms h σ) r.2 :=
+    r.1 = .ok (substG ms h σ t) ∧
+    (r.2.iters ≤ s.iters + Walker.dagBound t ∧ r.2.pushes ≤ s.pushes + Walker.dagBound t) ∧
+    Walker.FoldIdle (fun n => n.op.isQuantifier) (substG ms h σ) r.2 :=
   Walker.substitute_walk_eq_partial ms h σ inval shortcut fuel t s hi hfuel
 
 /-! ## the substitution lemma -/
